@@ -244,13 +244,15 @@ func (s *dohServer) handler(w http.ResponseWriter, r *http.Request) {
 	}
 }
 
-func startDoH(certDir string) (*dohServer, error) {
+func startDoH(certDir string) (*dohServer, error) { return startDoHAt(certDir, "127.0.0.1:443") }
+
+func startDoHAt(certDir, addr string) (*dohServer, error) {
 	cert, err := tls.LoadX509KeyPair(filepath.Join(certDir, "srv.pem"), filepath.Join(certDir, "srv.key"))
 	if err != nil {
 		return nil, err
 	}
 	s := &dohServer{conns: map[net.Conn]bool{}, hangStop: make(chan struct{})}
-	ln, err := net.Listen("tcp", "127.0.0.1:443")
+	ln, err := net.Listen("tcp", addr)
 	if err != nil {
 		return nil, err
 	}
@@ -523,6 +525,8 @@ func resolverEngine(args []string) error {
 		return resolverFault(r, c.n, certDir)
 	case "lmconc":
 		return resolverLastModConc(r, c.n, certDir)
+	case "eps":
+		return resolverEndpoints(r, c.n, certDir)
 	}
 	return errors.New("resolver: unknown mode")
 }
@@ -596,6 +600,138 @@ func resolverLastModConc(r *rng, n int, certDir string) error {
 }
 
 func r2id(a, b int) int { return (a*7 + b*131 + 1) & 0xffff }
+
+// ---------- mode eps: elections and queries over REAL DoH endpoints that share one host name ----------
+// Three DoH servers (same certificate, same host name doh.test) on 127.0.0.1, .2 and .3; the provider offers
+// endpoints that differ in their bootstrap address only, as the steering record of dns.nextdns.io does.  Histories
+// of: servers going down / coming back, the provider changing its offer, explicit elections, queries.  Observed:
+// the endpoint announced by OnChange and the server that actually received each query.
+//   eps <id> <op;op;...> => <out;out;...>    ops  H:<mask>  P:<i,j,..>  E  Q      outs  -|e<i>|none   s<i>|-
+func resolverEndpoints(r *rng, n int, certDir string) error {
+	var srvs []*dohServer
+	for i := 1; i <= 3; i++ {
+		s, err := startDoHAt(certDir, fmt.Sprintf("127.0.0.%d:443", i))
+		if err != nil {
+			return err
+		}
+		s.set(&dohScript{kind: "auto"})
+		srvs = append(srvs, s)
+	}
+	defer func() {
+		for _, s := range srvs {
+			close(s.hangStop)
+			s.dropConns(0)
+			_ = s.srv.Close()
+		}
+	}()
+	for h := 0; h < n; h++ {
+		offer := []int{0, 1}
+		var mu sync.Mutex
+		var changes []string
+		mgr := &endpoint.Manager{
+			Providers: []endpoint.Provider{endpoint.ProviderFunc(func(ctx context.Context) ([]endpoint.Endpoint, error) {
+				mu.Lock()
+				defer mu.Unlock()
+				var eps []endpoint.Endpoint
+				for _, i := range offer {
+					eps = append(eps, &endpoint.DOHEndpoint{Hostname: "doh.test", Bootstrap: []string{fmt.Sprintf("127.0.0.%d", i+1)}})
+				}
+				return eps, nil
+			})},
+			OnChange: func(e endpoint.Endpoint) {
+				mu.Lock()
+				changes = append(changes, e.String())
+				mu.Unlock()
+			},
+			ErrorThreshold:  1 << 30,
+			MinTestInterval: 1000 * time.Hour,
+		}
+		res := &resolver.DNS{DOH: resolver.DOH{GetProfileURL: func(q query.Query) (string, string) { return "https://doh.test/p", "p" }}, Manager: mgr}
+		setHealth := func(mask int) {
+			for i, s := range srvs {
+				if mask&(1<<i) != 0 {
+					atomic.StoreInt32(&s.rejectN, 0) // up (connections that are open stay open)
+				} else {
+					s.dropConns(1 << 20) // down: every connection is reset, the open ones are closed
+				}
+			}
+		}
+		mask := 7
+		setHealth(mask)
+		var ops, outs []string
+		nops := r.rng(4, 10)
+		for i := 0; i < nops; i++ {
+			switch x := r.intn(10); {
+			case x < 3:
+				mask = r.rng(0, 7)
+				setHealth(mask)
+				ops = append(ops, fmt.Sprintf("H:%d", mask))
+				outs = append(outs, "-")
+			case x < 5:
+				perm := [][]int{{0, 1}, {1, 0}, {0, 1, 2}, {2, 0}, {1, 2}, {2, 1, 0}, {0}, {1}}[r.intn(8)]
+				mu.Lock()
+				offer = perm
+				mu.Unlock()
+				var t []string
+				for _, k := range perm {
+					t = append(t, itoa(k))
+				}
+				ops = append(ops, "P:"+strings.Join(t, ","))
+				outs = append(outs, "-")
+			case x < 7:
+				mu.Lock()
+				changes = nil
+				mu.Unlock()
+				ctx, cancel := context.WithTimeout(context.Background(), 3*time.Second)
+				_ = mgr.Test(ctx)
+				cancel()
+				mu.Lock()
+				o := "same"
+				if len(changes) > 0 {
+					o = sx(changes[len(changes)-1])
+				}
+				mu.Unlock()
+				ops = append(ops, "E")
+				outs = append(outs, o)
+			default:
+				for _, s := range srvs {
+					s.take()
+				}
+				mu.Lock()
+				changes = nil
+				mu.Unlock()
+				name := fmt.Sprintf("q%d-%d.example", h, i)
+				payload := msgSpec{id: r.intn(65536), flags: 0x0100, qs: [][]byte{question(encodeName(name), 1, 1)}}.encode()
+				q, _ := query.New(payload, net.IP{127, 0, 0, 9}, net.IP{127, 0, 0, 1})
+				ctx, cancel := context.WithTimeout(context.Background(), 1500*time.Millisecond)
+				_, _, rerr := res.Resolve(ctx, q, make([]byte, 4096))
+				cancel()
+				var got []string
+				for k, s := range srvs {
+					for _, rq := range s.take() {
+						if len(rq.body) > 13 && strings.HasPrefix(string(rq.body[13:]), name[:strings.IndexByte(name, '.')]) {
+							got = append(got, fmt.Sprintf("s%d", k))
+						}
+					}
+				}
+				o := strings.Join(got, ",")
+				if o == "" {
+					o = "none"
+				}
+				mu.Lock()
+				if len(changes) > 0 { // the first query bootstraps the manager with an election of its own
+					o += "/" + sx(changes[len(changes)-1])
+				}
+				mu.Unlock()
+				ops = append(ops, "Q")
+				outs = append(outs, o+"/"+b2s(rerr != nil))
+			}
+		}
+		emit("eps", itoa(h), strings.Join(ops, ";"), "=>", strings.Join(outs, ";"))
+		setHealth(7)
+	}
+	return nil
+}
 
 // ---------- mode hist: cache histories ----------
 func resolverHist(r *rng, n int, certDir string) error {
